@@ -128,11 +128,11 @@ func runC03(c *Ctx) {
 	// the envelope is discarded only by reset() (which signals Reset to the backend)
 	for _, site := range c.Sites("st:Conn.recipients") {
 		if _, _, v := storedField(site); isNilConst(v) {
-			R.Ob(c.siteKey(site, "recipients discarded only by reset()"), c.P.InstrPos(site), funcName(site.Parent()) == "(*Conn).reset", "Conn.recipients is cleared in "+funcName(site.Parent())+": the recipients are forgotten (and the limit restarts) without a Reset signalled to the backend")
+			R.Ob(c.siteKey(site, "recipients discarded only by reset()"), c.P.InstrPos(site), c.onlyCalledFrom(site.Parent(), []string{"(*Conn).reset"}, 0), "Conn.recipients is cleared in "+funcName(site.Parent())+": the recipients are forgotten (and the limit restarts) without a Reset signalled to the backend")
 		}
 	}
 	for _, site := range c.Sites("st:Conn.fromReceived=false") {
-		R.Ob(c.siteKey(site, "sender discarded only by reset()"), c.P.InstrPos(site), funcName(site.Parent()) == "(*Conn).reset", "Conn.fromReceived is cleared in "+funcName(site.Parent())+" outside reset()")
+		R.Ob(c.siteKey(site, "sender discarded only by reset()"), c.P.InstrPos(site), c.onlyCalledFrom(site.Parent(), []string{"(*Conn).reset"}, 0), "Conn.fromReceived is cleared in "+funcName(site.Parent())+" outside reset()")
 	}
 	for _, site := range c.Sites("st:Conn.recipients") {
 		_, _, v := storedField(site)
